@@ -83,6 +83,39 @@ out += [
 roots.append(("DiaS", ["DiaS", "DiaA", "DiaB", "DiaC", "DiaD"]))
 roots.append(("Dia2S", ["Dia2S", "Dia2A", "Dia2B", "Dia2C", "Dia2D", "Dia2E"]))
 
+# wide families: more than a dozen candidate fields (own + promoted, counted before hiding) with names present at two and
+# three embedding depths, the embedded struct first / in the middle / last / by pointer: the shallowest field of a name
+# must win whatever order a sort leaves the candidates in
+names = ["Alpha", "Beta", "Gamma", "Delta", "Eps", "Zeta", "Eta", "Theta", "Iota", "Kappa", "Lambda", "Mu", "Nu", "Xi", "Omi", "Pi", "Rho", "Sigma"]
+for w, (nown, ninner, nshadow, pos, ptr, deeper) in enumerate([
+        (8, 9, 8, "last", False, False), (5, 9, 4, "first", False, False), (12, 3, 1, "mid", False, False), (4, 10, 2, "last", True, False),
+        (7, 7, 7, "first", True, False), (6, 8, 3, "mid", False, True), (13, 13, 13, "last", False, True), (1, 12, 1, "first", False, False),
+        (9, 5, 5, "mid", True, True), (3, 16, 3, "last", False, False), (10, 10, 0, "first", False, False), (16, 2, 2, "mid", False, False)]):
+    inner, outer, deep = "WI%d" % w, "WS%d" % w, "WD%d" % w
+    own = names[:nown]
+    inn = names[:nshadow] + names[nown:nown + (ninner - nshadow)]
+    fam = [outer, inner]
+    if deeper:
+        fam.append(deep)
+        out.append("type %s struct {" % deep)
+        for n in names[:max(2, nshadow // 2)] + ["Deep"]:
+            out.append("\t%s string" % n)
+        out.append("}")
+    out.append("type %s struct {" % inner)
+    if deeper:
+        out.append("\t%s" % deep)
+    for i, n in enumerate(inn):
+        out.append("\t%s string%s" % (n, " `refmt:\",omitempty\"`" if i % 5 == 4 else ""))
+    out.append("}")
+    emb = "\t%s%s" % ("*" if ptr else "", inner)
+    lines = ["\t%s int" % n for n in own]
+    k = {"first": 0, "mid": len(lines) // 2, "last": len(lines)}[pos]
+    lines.insert(k, emb)
+    out.append("type %s struct {" % outer)
+    out += lines
+    out.append("}")
+    roots.append((outer, fam))
+
 src = ["// Code generated by tools/genshapes.py seed=%d families=%d; DO NOT EDIT." % (seed, nfam), "", "package main", "",
        'import "reflect"', "", "type myInt int", ""]
 src += out
